@@ -58,7 +58,7 @@ bool same_bits(const std::vector<double> &a, const std::vector<double> &b) { ret
 } // namespace
 
 void check_C12(Src &s, Ctx &ctx) {
-    SpecOpts so; so.min_outs = 0; so.max_outs = 2; so.cap = cfg().tier ? 250 : 100;
+    SpecOpts so; so.min_outs = 0; so.max_outs = 2; so.cap = cfg().tier ? 150 : 100;
     GridState st; st.cap = so.cap; st.ctx = &ctx;
     st.spec = decode_spec(s, so); st.vm.decode(s);
     make_grid(st.g, st.spec, so.cap); ctx.log(st.spec.text());
